@@ -701,3 +701,85 @@ Proof.
   unfold r, to_physical_f, clamp_opt_f. fold x. split; intros D; rewrite D; [|reflexivity].
   destruct (clamp_f_ext mn mx x Fmn Fmx Hle Nx) as (F & E & B). repeat split; try assumption; apply B.
 Qed.
+
+(** * Statements in terms of Flocq's own comparison [Bleb] (false when a NaN is involved) *)
+Theorem from_physical_mono_b scale offset mn mx signed len p q :
+  c09_class_f scale offset mn mx = true -> Bleb p q = true ->
+  Bleb (if Bsign scale then from_physical_f scale offset mn mx signed len q
+        else from_physical_f scale offset mn mx signed len p)
+       (if Bsign scale then from_physical_f scale offset mn mx signed len p
+        else from_physical_f scale offset mn mx signed len q) = true.
+Proof.
+  intros Hc H. apply fle_Bleb in H.
+  destruct (from_physical_mono scale offset mn mx Hc signed len p q H) as [H1 H2].
+  apply fle_Bleb. destruct (Bsign scale); [apply H2|apply H1]; reflexivity.
+Qed.
+
+Theorem from_physical_saturates_b scale offset mn mx signed len p :
+  c09_class_f scale offset mn mx = true -> (1 <= len <= 52)%Z -> is_nan p = false ->
+  let r := from_physical_f scale offset mn mx signed len p in
+  is_finite r = true /\
+  Bleb (raw_lo_f signed len) r = true /\ Bleb r (raw_hi_f signed len) = true /\
+  IZR (raw_lo signed len) <= B2R r <= IZR (raw_hi signed len) /\
+  (raw_lo signed len <= setter_raw_f scale offset mn mx signed len p <= raw_hi signed len)%Z.
+Proof.
+  intros Hc Hl Hp r. destruct (from_physical_saturates scale offset mn mx Hc signed len p Hl Hp) as (F & B & T).
+  fold r in F, B, T.
+  destruct (raw_lo_f_exact signed len Hl) as [Flo Elo]. destruct (raw_hi_f_exact signed len Hl) as [Fhi Ehi].
+  split; [exact F|]. split; [|split; [|split; [exact B|exact T]]].
+  - rewrite Bleb_correct by assumption. apply Rle_bool_true. rewrite Elo. apply B.
+  - rewrite Bleb_correct by assumption. apply Rle_bool_true. rewrite Ehi. apply B.
+Qed.
+
+Theorem to_physical_clamp_b scale offset mn mx v :
+  c09_class_f scale offset mn mx = true -> is_finite v = true ->
+  let x := Bplus mode_NE (Bmult mode_NE v scale) offset in
+  let r := to_physical_f scale offset mn mx v in
+  is_nan x = false /\
+  (declared_f mn mx = true ->
+     is_finite r = true /\ Bleb mn r = true /\ Bleb r mx = true /\
+     (is_finite x = true -> B2R r = Rmax (B2R mn) (Rmin (B2R x) (B2R mx)))) /\
+  (declared_f mn mx = false -> r = x).
+Proof.
+  intros Hc Fv x r. destruct (class_inv _ _ _ _ Hc) as (Hs & Fo & Fmn & Fmx & Hle).
+  destruct (nonzerob_inv scale Hs) as [Fs _].
+  destruct (to_physical_clamp scale offset mn mx v Hc Fv) as [H1 H2].
+  split; [apply (linear_nn v scale offset Fv Fs Fo)|]. split; [|exact H2].
+  intros D. destruct (H1 D) as (F & B & E). split; [exact F|].
+  split; [|split].
+  - rewrite Bleb_correct by assumption. apply Rle_bool_true, B.
+  - rewrite Bleb_correct by assumption. apply Rle_bool_true, B.
+  - intros Fx. unfold r, x in *. rewrite E. rewrite (fin_ext (fadd (fmul v scale) offset) Fx). reflexivity.
+Qed.
+
+(** the decidable clause predicates the correspondence driver evaluates hold of the model *)
+Theorem model_satisfies_clauses scale offset mn mx signed len :
+  c09_class_f scale offset mn mx = true ->
+  (forall v, is_finite v = true ->
+     clamp_ok_f scale offset mn mx v (to_physical_f scale offset mn mx v) = true) /\
+  (forall p, (1 <= len <= 52)%Z -> is_nan p = false ->
+     sat_ok_f signed len (from_physical_f scale offset mn mx signed len p)
+              (setter_raw_f scale offset mn mx signed len p) = true) /\
+  (forall p q, Bleb p q = true ->
+     mono_ok_f scale (from_physical_f scale offset mn mx signed len p)
+                     (from_physical_f scale offset mn mx signed len q) = true).
+Proof.
+  intros Hc. split; [|split].
+  - intros v Fv. destruct (to_physical_clamp_b scale offset mn mx v Hc Fv) as (Nx & H1 & H2).
+    unfold clamp_ok_f. destruct (declared_f mn mx) eqn:D.
+    + destruct (H1 eq_refl) as (F & B1 & B2 & _). rewrite B1, B2. cbn [andb].
+      assert (E : to_physical_f scale offset mn mx v = clamp_f mn mx (fadd (fmul v scale) offset)).
+      { unfold to_physical_f, clamp_opt_f. rewrite D. reflexivity. }
+      rewrite <- E, Beqb_refl. rewrite (fin_nn _ F). reflexivity.
+    + rewrite (H2 eq_refl). fold fadd fmul. set (x := fadd (fmul v scale) offset) in *.
+      rewrite Beqb_refl. change (is_nan x) with (is_nan (Bplus mode_NE (Bmult mode_NE v scale) offset)). rewrite Nx. reflexivity.
+  - intros p Hl Hp.
+    destruct (from_physical_saturates_b scale offset mn mx signed len p Hc Hl Hp) as (_ & B1 & B2 & _ & T).
+    unfold sat_ok_f. rewrite B1, B2. cbn [andb]. unfold raw_lo, raw_hi in T.
+    destruct (bounds_exact len ltac:(lia)) as (E1 & E2 & E3).
+    destruct signed.
+    + rewrite E2, E3. apply andb_true_iff. split; apply Z.leb_le; apply T.
+    + rewrite E1. apply andb_true_iff. split; apply Z.leb_le; apply T.
+  - intros p q H. pose proof (from_physical_mono_b scale offset mn mx signed len p q Hc H) as M.
+    unfold mono_ok_f. destruct (Bsign scale); exact M.
+Qed.
